@@ -1,3 +1,4 @@
-import Hostd.Proto
-/-- stub driver for the `sectors` engine; replaced when the engine is built -/
-def main : IO Unit := IO.println "STATS lines=0 flagged=0"
+import Hostd.Drive.Sectors
+open Hostd
+def main : IO Unit := do
+  Proto.loop (← IO.getStdin) ({} : Drive.Sectors.DState) Drive.Sectors.step Drive.Sectors.stats
